@@ -249,7 +249,7 @@ M('c04-wsgi-meta-check-hoisted', 'C04', 'R6', 'falcon/app.py',
             raise HTTPBadRequest()
 
         try:
-""")
+""", also=('C03', 'C06'))
 M('c04-asgi-content-type-strict-decode', 'C04', 'R6', 'falcon/asgi/request.py',
   "self.content_type = req_headers[b'content-type'].decode('latin1')", "self.content_type = req_headers[b'content-type'].decode()", count=2, also=('C06',))
 M('c04-wsgi-content-type-unguarded', 'C04', 'R6', 'falcon/request.py',
@@ -296,6 +296,99 @@ M('c04-default-handler-formats-exception-object', 'C04', 'R5', 'falcon/app.py',
         self._compose_error_response(req, resp, HTTPInternalServerError())
 """)
 M('c04-asgi-default-handler-fstring-exception-object', 'C04', 'R5', 'falcon/asgi/app.py',
-  """        req.log_error(traceback.format_exc())
-""", """        req.log_error(f'{error}: ' + traceback.format_exc())
+  """        falcon._logger.error('[FALCON] Unhandled exception in ASGI app', exc_info=error)
+""", """        falcon._logger.error(f'[FALCON] Unhandled exception in ASGI app: {error}', exc_info=error)
 """)
+
+# ---- wave 5: R4 (f) negotiated media type of the default serializer; R8 req.accept
+_NEG_OLD = """    media_handlers = [mt for mt in options.media_handlers if mt not in predefined]
+    # NOTE(caselit,vytas): Add the registered handlers after the predefined
+    #   ones. This ensures that in the case of an equal match, the first one
+    #   (JSON) is selected and that the q parameter is taken into consideration
+    #   when selecting the media handler.
+    preferred = req.client_prefers(predefined + media_handlers)
+"""
+M('c04-serializer-json-prefix-fast-path', 'C04', 'R4', 'falcon/app_helpers.py', _NEG_OLD,
+  """    media_handlers = [mt for mt in options.media_handlers if mt not in predefined]
+    accept = req.accept
+    if accept == '*/*' or accept.startswith(MEDIA_JSON):
+        preferred = MEDIA_JSON
+    else:
+        preferred = req.client_prefers(predefined + media_handlers)
+""")
+M('c04-serializer-json-substring-fast-path', 'C04', 'R4', 'falcon/app_helpers.py', _NEG_OLD,
+  """    media_handlers = [mt for mt in options.media_handlers if mt not in predefined]
+    if 'json' in req.accept.lower():
+        preferred = MEDIA_JSON
+    else:
+        preferred = req.client_prefers(predefined + media_handlers)
+""")
+M('c04-serializer-xml-equality-fast-path', 'C04', 'R4', 'falcon/app_helpers.py', _NEG_OLD,
+  """    media_handlers = [mt for mt in options.media_handlers if mt not in predefined]
+    if req.accept in (MEDIA_XML, 'text/xml'):
+        preferred = MEDIA_XML
+    else:
+        preferred = req.client_prefers(predefined + media_handlers)
+""")
+M('c04-serializer-catch-all-shortcut-picks-xml', 'C04', 'R4', 'falcon/app_helpers.py', _NEG_OLD,
+  """    media_handlers = [mt for mt in options.media_handlers if mt not in predefined]
+    if req.accept == '*/*':
+        preferred = MEDIA_XML
+    else:
+        preferred = req.client_prefers(predefined + media_handlers)
+""")
+M('c04-serializer-handlers-offered-first', 'C04', 'R4', 'falcon/app_helpers.py',
+  "    preferred = req.client_prefers(predefined + media_handlers)\n", "    preferred = req.client_prefers(media_handlers + predefined)\n")
+M('c04-serializer-xml-predefined-first', 'C04', 'R4', 'falcon/app_helpers.py',
+  "        [MEDIA_JSON, 'text/xml', MEDIA_XML]\n", "        [MEDIA_XML, 'text/xml', MEDIA_JSON]\n")
+M('c04-serializer-suffix-heuristic-overrides-negotiation', 'C04', 'R4', 'falcon/app_helpers.py',
+  """    if preferred is None:
+        # NOTE(kgriffs): See if the client expects a custom media
+""", """    if preferred is None or preferred != MEDIA_JSON:
+        # NOTE(kgriffs): See if the client expects a custom media
+""")
+M2('c04-accept-dict-get-default', 'C04', 'R8', [
+    {'file': 'falcon/request.py', 'old': """        try:
+            return self.env['HTTP_ACCEPT'] or '*/*'
+        except KeyError:
+            return '*/*'
+""", 'new': """        return self.env.get('HTTP_ACCEPT', '*/*')
+"""},
+    {'file': 'falcon/asgi/request.py', 'old': """        try:
+            return self._asgi_headers[b'accept'].decode('latin1') or '*/*'
+        except KeyError:
+            return '*/*'
+""", 'new': """        return self._asgi_headers.get(b'accept', b'*/*').decode('latin1')
+"""}])
+M('c04-wsgi-accept-blank-passes-through', 'C04', 'R8', 'falcon/request.py',
+  "            return self.env['HTTP_ACCEPT'] or '*/*'\n", "            return self.env['HTTP_ACCEPT']\n", also=('C06',))
+M('c04-asgi-accept-missing-is-none', 'C04', 'R8', 'falcon/asgi/request.py',
+  """            return self._asgi_headers[b'accept'].decode('latin1') or '*/*'
+        except KeyError:
+            return '*/*'
+""", """            return self._asgi_headers[b'accept'].decode('latin1') or '*/*'
+        except KeyError:
+            return None
+""", also=('C06',))
+M2('c04-accept-built-by-none-default-factory', 'C04', 'R8', [
+    {'file': 'falcon/request.py', 'old': """    @property
+    def accept(self) -> str:
+        \"\"\"Value of the Accept header, or ``'*/*'`` if the header is missing.\"\"\"
+        # NOTE(kgriffs): Per RFC, a missing accept header is
+        # equivalent to '*/*'
+        try:
+            return self.env['HTTP_ACCEPT'] or '*/*'
+        except KeyError:
+            return '*/*'
+""", 'new': """    accept: Optional[str] = helpers._header_property('HTTP_ACCEPT')
+"""},
+    {'file': 'falcon/asgi/request.py', 'old': """    @property
+    def accept(self) -> str:
+        # NOTE(kgriffs): Per RFC, a missing accept header is
+        # equivalent to '*/*'
+        try:
+            return self._asgi_headers[b'accept'].decode('latin1') or '*/*'
+        except KeyError:
+            return '*/*'
+""", 'new': """    accept: Optional[str] = asgi_helpers._header_property('Accept')
+"""}])
